@@ -20,7 +20,7 @@ def signersFor (T : Truth) (c : Cfg) (s : Sig) (m : Msg) : List Nat :=
   | .bls atoms _ _ => dedupNat (atoms.filterMap fun a => if c.has a.signer && a.msg == m then some a.signer else none)
 
 def soundQC (E : CertEnv) (qc : QC) : Bool :=
-  qc.hash == genesisHash ||
+  (qc.hash == genesisHash && qc.view == 0) ||
   match qc.sig, E.get qc.hash with
   | some s, some b => b.view == qc.view && decide (E.cfg.quorum ≤ (signersFor E.T E.cfg s (blkMsg qc.hash)).length)
   | _, _ => false
@@ -55,7 +55,7 @@ def honestSig (T : Truth) (c : Cfg) (s : Sig) (m : Msg) : Bool :=
       bits.ids.all c.has && atoms.isPerm (bits.ids.map fun i => ⟨i, m⟩)
 
 def honestQC (E : CertEnv) (qc : QC) : Bool :=
-  qc.hash == genesisHash ||
+  (qc.hash == genesisHash && qc.view == 0) ||
   match qc.sig, E.get qc.hash with
   | some s, some b => b.view == qc.view && decide (E.cfg.quorum ≤ s.len) && honestSig E.T E.cfg s (blkMsg qc.hash)
   | _, _ => false
